@@ -55,6 +55,9 @@ class Contract:
     reads: dict[str, list[str]] | None = None  # parameter -> the only fields of that object the function may read (reads frame)
     call_site: dict[str, dict[str, str]] = field(default_factory=dict)  # callee short name -> clauses over callee_<param> and the caller's state
     registry_requires: dict[str, str] = field(default_factory=dict)  # obligations at every invocation of a registry entry
+    ensures_each: dict[str, str] = field(default_factory=dict)  # clauses over `node` that hold of EVERY element of the returned list of nodes
+    comp_assume: dict[str, str] = field(default_factory=dict)  # comprehension target -> ASSUMED fact about every element (trusted lemma, validated at run time)
+    collector: str | None = None  # name of the local list the function appends its results to (standard collector invariant for its loops)
 
 
 def contract(qualname: str, **kw) -> Contract:
